@@ -87,6 +87,18 @@ def run(workdir, extract):
     case('held_good', False, held('held_good'))
     case('held_bad', True, held('held_bad'))
     case('held_temp_bad', True, held('held_temp_bad'))
+    case('held_branch_bad', True, held('held_branch_bad'))
+
+    def correlated(fnname):
+        def f(ctx):
+            g = ctx.fn(fnname)
+            e_rw = core.guard_edges(g, [Guard(place='read_only', vals={'false'})])
+            r = core.reach(g, cut_edges=e_rw)
+            m = ctx.sites(g, 'Dev::mutate', exact=1)
+            ctx.check(bool(e_rw) and m and m[0].bb not in r['term'], 'correlated', 'with read_only == true the mutation is unreachable', g, g.line)
+        return f
+    case('correlated_good', False, correlated('correlated_good'))
+    case('correlated_bad', True, correlated('correlated_bad'))
 
     def flow(fnname):
         def f(ctx):
